@@ -694,6 +694,9 @@ type Scenario struct {
 	Manifest Manifest `json:"manifest"`
 	Vulns    []OSV    `json:"vulns"`
 	Levels   Levels   `json:"levels"`
+	// Family names the generator family of a scenario that does not come from GenScenario
+	// ("chain", "chain_split"); informational.
+	Family string `json:"family,omitempty"`
 }
 
 // GenScenario draws a universe, a manifest over it, OSV records and an upgrade configuration.
